@@ -104,7 +104,12 @@ func buildReplayBinary(tmp, pkgPath string, harnesses []string) (string, error) 
 	sb.WriteString("//go:build verif\n\npackage " + pkgNameOf(pkgPath) + "\n\nimport (\n\t\"testing\"\n\tzz \"" + verifPkg + "\"\n)\n\n")
 	sb.WriteString("func TestZZVerifReplay(t *testing.T) {\n\tn, err := zz.RunFile(map[string]func(){\n")
 	sort.Strings(harnesses)
+	seenH := map[string]bool{}
 	for _, h := range harnesses {
+		if seenH[h] {
+			continue
+		}
+		seenH[h] = true
 		fmt.Fprintf(&sb, "\t\t%q: %s,\n", h, h)
 	}
 	sb.WriteString("\t})\n\tif err != nil {\n\t\tt.Fatal(err)\n\t}\n\tt.Logf(\"ran %d cases\", n)\n}\n")
@@ -246,7 +251,7 @@ func (r *report) replayAll(tmp string) {
 		refs := map[string]ref{}
 		for _, res := range ress {
 			for i, s := range res.Samples {
-				id := fmt.Sprintf("%s#s%d", res.Name, i)
+				id := fmt.Sprintf("%s#%p#s%d", res.Name, res, i)
 				cases = append(cases, Case{ID: id, Harness: res.Name, Scalars: s.Scalars, Bytes: s.Bytes})
 				refs[id] = ref{res, i}
 			}
@@ -335,7 +340,7 @@ func (r *report) finish() int {
 	viol := 0
 	// violations
 	replayDir := filepath.Join(verifDir, "replays", r.prop)
-	for _, res := range r.results {
+	for ri, res := range r.results {
 		for i := range res.Violations {
 			v := &res.Violations[i]
 			switch {
@@ -343,7 +348,7 @@ func (r *report) finish() int {
 				r.machinery = append(r.machinery, fmt.Sprintf("%s: obligation %q undecided (%s)", res.Name, v.Label, v.Detail))
 			case v.Confirmed:
 				os.MkdirAll(replayDir, 0o755)
-				f := filepath.Join(replayDir, fmt.Sprintf("%s-%d.json", res.Name, i))
+				f := filepath.Join(replayDir, fmt.Sprintf("%s-%d-%d.json", res.Name, ri, i))
 				rf := ReplayFile{Property: r.prop, Pkg: res.Cfg.Pkg, Case: Case{ID: res.Name, Harness: res.Name, Scalars: v.Scalars, Bytes: v.Bytes}, Expect: v}
 				b, _ := json.MarshalIndent(rf, "", " ")
 				os.WriteFile(f, b, 0o644)
